@@ -189,6 +189,7 @@ func findVersionParser(p *Prog) (*ssa.Function, map[string]bool, string) {
 }
 
 func checkC03(p *Prog, rp *Report) {
+	defer stateRule(p, rp, "C03-STATE", p.Func("version", "Parse"), p.Method("version", "Version", "UnmarshalText"), p.Method("version", "Version", "UnmarshalControl"), p.Method("version", "Version", "String"), p.Method("version", "Version", "MarshalText"))
 	rp.Explanation = "C03-ONE: Parse, UnmarshalText and UnmarshalControl all reach one parse function (call graph). C03-TABLE: that function is interpreted abstractly on a generated family of strings (every combination of 20 epoch shapes, 14 upstream shapes and 8 revision shapes, plus surrounding white space) and compared with a Policy 5.6.12 reference: accept/reject and, on acceptance, epoch, upstream and revision. C03-ALPHA: every byte value and six multi-byte runes probed inside the upstream and the revision part are accepted iff they are in the Policy alphabets. C03-RESET: parsing into a Version that already holds a value overwrites epoch, upstream and revision. C03-CODEC: MarshalText / MarshalControl return String(); UnmarshalText / UnmarshalControl accept exactly what Parse accepts, with the same result. C03-RENDER: decision table of String / StringWithoutEpoch (epoch iff > 0 or ':' in upstream; '-' and the revision iff the revision is non-empty or the upstream contains '-'). C03-ROUNDTRIP: Parse(String(Parse(s))) = Parse(s) for every accepted member of the family. C03-EPOCHWIDTH: Parse of the GOARCH=386 load, interpreted with 32 bit int/uint on epochs around 2^31 and 2^32, accepts an epoch only with its exact value."
 	rp.NotDecided = "strings outside the generated family (the family is built from the grammar's token classes and the positions the parser distinguishes: first colon, last hyphen, first byte of the upstream part)."
 	rp.Trusted = []string{"go/types, go/ssa", "contracts of strings.*, strconv.ParseInt, unicode.IsSpace/IsDigit, fmt.Sprintf(%d:%s)", "Policy §5.6.12 alphabets as written in c03.go"}
@@ -217,36 +218,11 @@ func c03Render(p *Prog, rp *Report) {
 			r.bad(key, "", "method not found", nil)
 			continue
 		}
-		// the renderer may only look at its strings through Contains(':'/'-'), len, == ""
-		okOps := true
-		badOp := ""
-		for _, f := range reachableRepoFuncs(fn) {
-			for _, c := range allCalls(f) {
-				n := calleeName(c.Common())
-				switch {
-				case n == "fmt.Sprintf", n == "strconv.Itoa", n == "strconv.FormatUint", n == "strconv.FormatInt", n == "builtin:len", strings.HasPrefix(n, "(pault.ag/go/debian/version.Version)"):
-				case n == "strings.Contains" || n == "strings.ContainsRune" || n == "strings.IndexByte" || n == "strings.Index" || n == "strings.ContainsAny":
-					if s, ok := constString(c.Common().Args[1]); ok && (s == ":" || s == "-") {
-						continue
-					}
-					if v, ok := constInt(c.Common().Args[1]); ok && (v == ':' || v == '-') {
-						continue
-					}
-					okOps, badOp = false, n+" with an unexpected needle"
-				default:
-					okOps, badOp = false, "call of "+n
-				}
-			}
-		}
-		if !okOps {
-			r.undecided(key, p.Pos(fn.Pos()), "renderer uses an operation outside the table model: "+badOp)
-			continue
-		}
 		bad := ""
 		rows := 0
-		for _, ep := range []int64{0, 1, 17} {
-			for _, up := range []string{"1.0", "1:2", "1-2", "1:2-3"} {
-				for _, rev := range []string{"", "r1"} {
+		for _, ep := range []int64{0, 1, 17, 4294967295} {
+			for _, up := range []string{"1.0", "1:2", "1-2", "1:2-3", "0", "1.0~rc1+b2", "09a:b~1"} {
+				for _, rev := range []string{"", "r1", "0", "1.2~a+b"} {
 					m := NewMachine(p, nil)
 					installStringModels(m)
 					m.Hooks["fmt.Sprintf"] = sprintfModel
@@ -274,7 +250,7 @@ func c03Render(p *Prog, rp *Report) {
 		if strings.HasPrefix(bad, "undecided") {
 			r.undecided(key, p.Pos(fn.Pos()), bad)
 		} else {
-			r.check(bad == "", key, p.Pos(fn.Pos()), fmt.Sprintf("%d rows: one representative per combination of (epoch zero?, ':' in upstream?, '-' in upstream?, revision empty?)", rows), bad)
+			r.check(bad == "", key, p.Pos(fn.Pos()), fmt.Sprintf("%d rows (4 epochs x 7 upstream parts with and without ':' and '-' x 4 revisions)", rows), bad)
 		}
 	}
 }
